@@ -6,7 +6,19 @@ package v1
 func vGN(name string, kind int) (GeneralName, []byte) {
 	switch kind {
 	case 1:
-		return GeneralName{Type: "ip", Name: "10.0.0.7"}, []byte{0x87, 0x04, 10, 0, 0, 7}
+		// dotted quad of four three-digit octets (zero-padded, symbolic digits, value <= 255)
+		str := ""
+		ip := []byte{}
+		for o := 0; o < 4; o++ {
+			d, v := vOctetString(vName(name+".ip", o))
+			vAssume(v <= 255)
+			if o > 0 {
+				str += "."
+			}
+			str += d
+			ip = append(ip, byte(v))
+		}
+		return GeneralName{Type: "ip", Name: str}, vTLV(0x87, ip)
 	case 2:
 		s := vAscii(name+".dns", 2)
 		return GeneralName{Type: "dns", Name: s}, vTLV(0x82, []byte(s))
